@@ -21,7 +21,12 @@ char *vp_convert(const char *src, unsigned long ext, int fmt, int lang, int fam)
 	K_TRY({
 		if (fam == 0) out = mmd_string_convert(src, ext, fmt, lang);
 		else if (fam == 1) { DString *d = d_string_new(src); out = mmd_d_string_convert(d, ext, fmt, lang); d_string_free(d, true); }
-		else { mmd_engine *e = mmd_engine_create_with_string(src, ext); mmd_engine_set_language(e, lang); out = mmd_engine_convert(e, fmt); mmd_engine_free(e, true); }
+		else if (fam == 2) { mmd_engine *e = mmd_engine_create_with_string(src, ext); mmd_engine_set_language(e, lang); out = mmd_engine_convert(e, fmt); mmd_engine_free(e, true); }
+		else if (fam == 3) { /* the same engine asked twice: the second answer */
+			mmd_engine *e = mmd_engine_create_with_string(src, ext); mmd_engine_set_language(e, lang); char *first = mmd_engine_convert(e, fmt); free(first); out = mmd_engine_convert(e, fmt); mmd_engine_free(e, true); }
+		else { /* an engine that has already produced a DString result and answered a metadata query */
+			mmd_engine *e = mmd_engine_create_with_string(src, ext); mmd_engine_set_language(e, lang); DString *d0 = mmd_engine_convert_to_data(e, fmt, NULL); if (d0) d_string_free(d0, true);
+			char *k = mmd_engine_metadata_keys(e); free(k); out = mmd_engine_convert(e, fmt); mmd_engine_free(e, true); }
 	});
 	if (k_exited) { vp_exited = 1; vp_exit_status = k_exit_status; out = NULL; }
 	POOL_DRAIN();
@@ -191,6 +196,20 @@ char *vp_engine_parse_export(void *e, int fmt) {
 char *vp_engine_query(void *e) { char *k = mmd_engine_metadata_keys((mmd_engine *)e); return k ? k : strdup(""); }
 const char *vp_engine_source(void *e) { return ((mmd_engine *)e)->dstr->str; }
 void vp_engine_free(void *e) { mmd_engine_free((mmd_engine *)e, true); }
+/* an engine over a caller-owned DString (the editor use case): the caller replaces the text and converts again */
+void vp_engine_parse(void *e) { mmd_engine_parse_string((mmd_engine *)e); }
+void *vp_engine_new_d(const char *src, unsigned long ext) { DString *d = d_string_new(src); return mmd_engine_create_with_dstring(d, ext); }
+void vp_engine_set_text(void *e, const char *src) { DString *d = ((mmd_engine *)e)->dstr; d_string_erase(d, 0, d->currentStringLength); d_string_append(d, src); }
+/* everything an engine carries from one conversion to the next (for the C05 state key) */
+uint64_t vp_engine_state(void *ev) {
+	mmd_engine *e = ev; uint64_t h = K_FNV0;
+	h = k_fnv(&e->extensions, sizeof e->extensions, h); h = k_fnv(&e->allow_meta, sizeof e->allow_meta, h); h = k_fnv(&e->language, sizeof e->language, h); h = k_fnv(&e->quotes_lang, sizeof e->quotes_lang, h);
+	h = k_fnv(&e->recurse_depth, sizeof e->recurse_depth, h); h = k_fnv(&e->random_seed_base_labels, sizeof e->random_seed_base_labels, h);
+	stack *st[] = { e->abbreviation_stack, e->citation_stack, e->critic_stack, e->definition_stack, e->footnote_stack, e->glossary_stack, e->header_stack, e->link_stack, e->metadata_stack, e->table_stack };
+	for (unsigned i = 0; i < sizeof st / sizeof st[0]; i++) { size_t n = st[i] ? st[i]->size : (size_t)-1; h = k_fnv(&n, sizeof n, h); }
+	int has_assets = e->asset_hash != NULL, has_root = e->root != NULL; h = k_fnv(&has_assets, sizeof has_assets, h); h = k_fnv(&has_root, sizeof has_root, h);
+	return h;
+}
 /* hash of every piece of process-global mutable state of the library (inventory: nm on the objects; see checks/c05.py) */
 extern long ran_x[]; extern long ran_arr_buf[]; extern long ran_arr_dummy;
 uint64_t vp_global_state(void) {
